@@ -39,4 +39,11 @@ GROUPS = [
     for k, nm, fns in [(0, "skip_blanks", ["ILLread_lp_state_skip_blanks"]), (1, "next_field", ["ILLread_lp_state_next_field_on_line", "next_field"]), (2, "next_var", ["ILLread_lp_state_next_var", "ILLis_lp_name_char"]),
                        (3, "has_colon", ["ILLread_lp_state_has_colon"]), (4, "colon", ["ILLread_lp_state_colon"]), (5, "sign", ["ILLread_lp_state_sign"]), (6, "sense", ["ILLtest_lp_state_sense"]),
                        (7, "prev_field", ["ILLread_lp_state_prev_field"]), (8, "next_is", ["ILLtest_lp_state_next_is"])]
+] + [
+    Group("rdr/mps_scan_" + nm, "mps_scan.c", tus=["read_mps_mpq.c"], model=MODEL, defines=["WHICH=%d" % k], dfcc=False, unwind=26, kind="bounded", namebuf=16, timeout=1200,
+          bound="every line content of at most 4 arbitrary bytes with or without trailing newline, cursor anywhere, stale bytes after the terminator; loops completely unwound; reader buffer capacity reduced to 16",
+          functions=fns, props=["C11", "C17"],
+          assumed=["rdr/mps_scan: sscanf(\"%s\"), strncasecmp are modelled by plain loops; the numeric path (get_double -> ILLget_value) is stubbed here and decided in lpnum/*; the line source delivers one line and then end of file; vsnprintf (warning text) writes an empty string, the message formatting is decided in rdr/errfmt_*"])
+    for k, nm, fns in [(0, "next_field", ["ILLmps_next_field", "mps_skip_comment"]), (1, "check_eol", ["ILLmps_check_end_of_line"]), (2, "next_coef", ["ILLmps_next_coef", "get_double"]),
+                       (3, "next_line", ["ILLmps_next_line"]), (4, "next_bound", ["ILLmps_next_bound"])]
 ]
